@@ -74,6 +74,143 @@ pub fn perturb(root: &Node, p: &[PathElem]) -> Vec<Vec<PathElem>> {
     out
 }
 
+/// Path keys derived from the *source spelling* of escaped member names below the object at `p`:
+/// the raw text between the quotes, and every prefix of it that ends in a backslash. A lookup must
+/// compare decoded names, so these only resolve if some member really decodes to them.
+pub fn perturb_raw(root: &Node, doc: &[u8], p: &[PathElem]) -> Vec<Vec<PathElem>> {
+    let mut out = Vec::new();
+    let Some(n) = root.lookup(p) else { return out };
+    let Kind::Obj(v) = &n.kind else { return out };
+    for (k, _) in v.iter().filter(|(k, _)| k.has_escape).take(4) {
+        let raw = &doc[k.span.start + 1..k.span.end - 1];
+        let Ok(raw) = std::str::from_utf8(raw) else { continue };
+        let mut cands = vec![raw.to_string()];
+        for (i, c) in raw.char_indices() {
+            if c == '\\' {
+                cands.push(raw[..=i].to_string());
+            }
+        }
+        cands.dedup();
+        for c in cands.into_iter().take(6) {
+            let mut q = p.to_vec();
+            q.push(PathElem::Key(c));
+            out.push(q);
+        }
+    }
+    out
+}
+
+/// An object whose member names are confusable when raw source text and decoded names are mixed
+/// up: names ending in a backslash, names containing an escaped quote, one name being the raw
+/// spelling of another, long names that share their first 16 and last 8 bytes.
+pub fn gen_confusable_keys(src: &mut Src) -> Vec<u8> {
+    const NAMES: &[&str] = &[
+        "k\\\"x", "k\\\\", "k", "k\\n", "k\\\\n", "a\\u0062", "ab", "a\\\\u0062", "q\\\"", "q", "\\\\", "\\\"", "", "\\u005c", "\\/", "/",
+        "com.example.service.alpha.timeout", "com.example.service.gamma.timeout", "com.example.service.delta.timeout", "com.example.service.alpha.timeou", "com.example.servicE.alpha.timeout",
+        "aaaaaaaaaaaaaaaaaaaaaaaaaaaaaaaXaaaaaaaa", "aaaaaaaaaaaaaaaaaaaaaaaaaaaaaaaYaaaaaaaa",
+    ];
+    let n = 2 + src.below(7);
+    let mut names: Vec<&str> = Vec::new();
+    for _ in 0..n {
+        let c = *src.pick(NAMES);
+        if !names.contains(&c) {
+            names.push(c);
+        }
+    }
+    let mut out = Vec::new();
+    let nested = src.chance(30);
+    if nested {
+        out.extend_from_slice(b"[0,");
+    }
+    out.push(b'{');
+    for (i, k) in names.iter().enumerate() {
+        if i > 0 {
+            out.push(b',');
+        }
+        out.push(b'"');
+        out.extend_from_slice(k.as_bytes());
+        out.extend_from_slice(b"\":");
+        match src.below(3) {
+            0 => out.extend_from_slice(format!("{i}").as_bytes()),
+            1 => out.extend_from_slice(format!("[{i},{i}]").as_bytes()),
+            _ => out.extend_from_slice(format!("{{\"i\":{i}}}").as_bytes()),
+        }
+    }
+    out.push(b'}');
+    if nested {
+        out.push(b']');
+    }
+    out
+}
+
+/// Containers whose elements open bursts of brackets of one kind and close them one or more
+/// 64-byte blocks later (long strings in between), next to elements that open and close within
+/// one block: the bracket-counting skippers see blocks with unbalanced opener/closer counts.
+pub fn gen_bracket_stress(src: &mut Src) -> Vec<u8> {
+    let mut out = Vec::new();
+    let pre = src.below(66);
+    out.resize(pre, b' ');
+    let as_obj = src.chance(80);
+    out.push(if as_obj { b'{' } else { b'[' });
+    let n = 2 + src.below(5);
+    for i in 0..n {
+        if i > 0 {
+            out.push(b',');
+        }
+        if as_obj {
+            out.extend_from_slice(format!("\"m{i}\":").as_bytes());
+        }
+        let depth = *src.pick(&[0usize, 1, 1, 2, 3, 4, 5, 6, 9]);
+        let kind_arr = src.chance(170);
+        let mixed = src.chance(40);
+        let mut closers = Vec::new();
+        for d in 0..depth {
+            let arr = if mixed { src.bool() } else { kind_arr };
+            if arr {
+                out.push(b'[');
+                closers.push(b']');
+                if src.chance(50) {
+                    out.extend_from_slice(b"0,");
+                }
+            } else {
+                out.extend_from_slice(format!("{{\"d{d}\":").as_bytes());
+                closers.push(b'}');
+            }
+        }
+        match src.below(5) {
+            0 => out.extend_from_slice(b"1"),
+            1 => out.extend_from_slice(b"[]"),
+            2 => {
+                out.push(b'"');
+                let l = *src.pick(&[1usize, 20, 40, 56, 60, 62, 63, 64, 65, 66, 70, 100, 128, 130, 200]);
+                for j in 0..l {
+                    out.push(if src.chance(12) { *src.pick(&[b'[', b']', b'{', b'}', b',', b':']) } else { b'a' + (j % 26) as u8 });
+                }
+                out.push(b'"');
+            }
+            3 => {
+                out.push(b'"');
+                let l = *src.pick(&[56usize, 62, 63, 64, 65, 100]) + src.below(3);
+                out.resize(out.len() + l, b'a');
+                out.push(b'"');
+            }
+            _ => out.extend_from_slice(b"{\"z\":[1,[2]]}"),
+        }
+        while let Some(c) = closers.pop() {
+            if src.chance(30) {
+                out.extend_from_slice(b",7");
+                if c == b'}' {
+                    // keep objects well-formed: undo and close instead
+                    out.truncate(out.len() - 2);
+                }
+            }
+            out.push(c);
+        }
+    }
+    out.push(if as_obj { b'}' } else { b']' });
+    out
+}
+
 /// Documents built to stress the skippers: an object (or array) whose leading members are
 /// "nasty" values and whose later members are the targets.
 pub fn gen_skip_stress(src: &mut Src, p: &DocParams) -> Vec<u8> {
